@@ -45,7 +45,7 @@ META = dict(
           "ref_neighborhood", "ref_refined", "inv_parent_of_children", "inv_partition",
           "inv_coord_roundtrip", "inv_child_in_parent_cell", "inv_volume", "flat_bijection",
           "unbatched_calls"],
-    quick=dict(cases=160, workers=6, budget_s=70),
+    quick=dict(cases=140, workers=8, budget_s=75),
     thorough=dict(cases=3000, workers=16, budget_s=780),
     design_ref="DESIGN.md §5 C31",
     level_text=("every index of every level of ~150 (quick) generated grids from all grid families is "
@@ -63,6 +63,8 @@ STRICT_OPEN_CLIP = False   # True: treat wrapped out-of-range neighbours on open
 def init(ck):
     import jax
     jax.config.update("jax_enable_x64", True)
+    from vf.libhelp import enable_jax_cache
+    enable_jax_cache()
     import nifty.re  # noqa
     from nifty.re.multi_grid import grid as G, grid_impl as GI
     import ducc0
@@ -508,8 +510,13 @@ def gen_open(ck, rng, depth, cap, maxnd=3):
 
 def gen_healpix(ck, rng, depth, cap):
     GI = ck.state["GI"]
+    cap = min(cap, ck.pick(768, 3072))
     depth = min(depth, 2)
     nside0 = int(pick(rng, [1, 1, 2]))
+    if 12 * nside0 ** 2 > cap:
+        nside0 = 1
+    while depth > 0 and 12 * nside0 ** 2 * 4 ** depth > cap:
+        depth -= 1
     mode = int(rng.integers(0, 4))
     if mode == 0 and depth >= 1:
         splits = tuple(int(pick(rng, [1, 4, 4, 16])) for _ in range(depth))
@@ -533,6 +540,37 @@ def gen_healpix(ck, rng, depth, cap):
         d = dict(t="HEALPixGrid", nside0=nside0, depth=depth)
     ref = HP(ck.state["ducc0"], nside0, splits)
     return g, ref, d
+
+
+def gen_product(ck, rng, depth, cap, kinds):
+    """MGrid of two base grids of equal depth (a HEALPix part keeps the product within one or
+    a few batch chunks because its maps are expensive, see FAMILIES)"""
+    G = ck.state["G"]
+    depth = min(depth, 2)
+    for _ in range(50):
+        k1, k2 = pick(rng, kinds), pick(rng, kinds)
+        if "healpix" in (k1, k2):
+            tot = min(cap, ck.pick(512, 2048))
+            d_hp = min(depth, ck.pick(1, 2))
+            gh, ph, dh = gen_healpix(ck, rng, d_hp, 48 if ck.pick(True, False) else 192)
+            oth = k2 if k1 == "healpix" else k1
+            if oth == "healpix":
+                oth = "grid"
+            go, po, do = gen_base(ck, rng, ph.depth, max(2, tot // int(ph.N[-1][0])), [oth])
+            if po.depth != ph.depth:
+                continue
+            if k1 == "healpix":
+                g1, p1, d1, g2, p2, d2 = gh, ph, dh, go, po, do
+            else:
+                g1, p1, d1, g2, p2, d2 = go, po, do, gh, ph, dh
+        else:
+            sub = int(cap ** 0.5)
+            g1, p1, d1 = gen_base(ck, rng, depth, sub, [k1])
+            g2, p2, d2 = gen_base(ck, rng, depth, sub, [k2])
+            if p1.depth != p2.depth:
+                continue
+        return G.MGrid(g1, g2), Prod([p1, p2]), dict(t="MGrid", grids=[d1, d2])
+    raise RuntimeError("could not generate a product grid")
 
 
 def _simple_open_args(rng, depth, cap, k=None, maxnd=2):
@@ -598,6 +636,7 @@ def gen_simpleopen(ck, rng, depth, cap, kind="simple", k=None):
     shape0 = tuple(int(x) for x in np.asarray(g.shape0))
     ref = Cart(False, shape0, [tuple(int(x) for x in s) for s in sarr], [(pad,) * kk] * depth,
                anchor="final", dist=dist, transform=transform)
+    ref.brokenlog = (kind == "brokenlog")
     ref.min_shape = np.array(min_shape)
     return g, ref, desc
 
@@ -651,9 +690,12 @@ def gen_base(ck, rng, depth, cap, kinds):
     raise ValueError(k)
 
 
-FAMILIES = (["grid"] * 5 + ["open"] * 5 + ["healpix"] * 2 + ["simpleopen"] * 2 + ["log"] * 2
-            + ["brokenlog"] * 2 + ["mgrid"] * 4 + ["hplogr", "hpbrokenlogr"] + ["flat"] * 4
-            + ["sparse"] * 3)
+FAMILIES = (["grid"] * 6 + ["open"] * 7 + ["healpix"] * 2 + ["simpleopen"] * 3 + ["log"] * 3
+            + ["brokenlog"] * 1 + ["mgrid"] * 5 + ["hplogr", "hpbrokenlogr"] + ["flat"] * 6
+            + ["sparse"] * 4)
+# NIFTy's HEALPix maps (lax.cond under an eager vmap) and the broken-log map (jnp.piecewise with
+# fresh lambdas) are re-compiled by JAX on *every call* (~0.5 s each): grids containing them are
+# generated less often, kept within one batch chunk, and get fewer unbatched calls.
 
 
 def gen_grid(ck, rng):
@@ -666,19 +708,11 @@ def gen_grid(ck, rng):
         ref = Prod([part])
         return fam, g, ref, d
     if fam == "mgrid":
-        depth = min(depth, 2)
-        sub = int(cap ** 0.5)
-        kinds = ["grid", "grid", "open", "healpix", "log", "simpleopen"]
-        while True:
-            g1, p1, d1 = gen_base(ck, rng, depth, sub, kinds)
-            g2, p2, d2 = gen_base(ck, rng, depth, sub, kinds)
-            if p1.depth == p2.depth == depth:
-                break
-            depth = min(p1.depth, p2.depth)     # healpix caps its depth
-        g = G.MGrid(g1, g2)
-        return fam, g, Prod([p1, p2]), dict(t="MGrid", grids=[d1, d2])
+        g, prod, d = gen_product(ck, rng, depth, cap,
+                                 ["grid", "grid", "open", "open", "healpix", "log", "simpleopen"])
+        return fam, g, prod, d
     if fam in ("hplogr", "hpbrokenlogr"):
-        depth = int(pick(rng, [0, 1, 1, 2]))
+        depth = int(pick(rng, ck.pick([0, 1, 1], [0, 1, 1, 2])))
         nside0 = 1
         nside = nside0 * 2 ** depth
         r_min_shape = int(rng.integers(2, 7))
@@ -710,6 +744,7 @@ def gen_grid(ck, rng):
         rr = Cart(False, shape0, [(2,)] * depth, [(pad,)] * depth, anchor="final",
                   transform=transform)
         rr.min_shape = np.array([r_min_shape])
+        rr.brokenlog = (fam == "hpbrokenlogr")
         return fam, g, Prod([hp, rr], radial=True), d
     if fam == "flat":
         ordering = pick(rng, ["serial", "nest", "nest"])
@@ -717,15 +752,8 @@ def gen_grid(ck, rng):
                                                         else [])
         sub = pick(rng, kinds)
         if sub == "mgrid":
-            depth = min(depth, 2)
-            kk = ["grid", "grid", "healpix"] + (["open"] if ordering == "serial" else [])
-            while True:
-                g1, p1, d1 = gen_base(ck, rng, depth, int(cap ** 0.5), kk)
-                g2, p2, d2 = gen_base(ck, rng, depth, int(cap ** 0.5), kk)
-                if p1.depth == p2.depth == depth:
-                    break
-                depth = min(p1.depth, p2.depth)
-            base, prod, bd = G.MGrid(g1, g2), Prod([p1, p2]), dict(t="MGrid", grids=[d1, d2])
+            base, prod, bd = gen_product(ck, rng, depth, cap, ["grid", "grid", "healpix"] + (
+                ["open"] if ordering == "serial" else []))
         else:
             base, part, bd = gen_base(ck, rng, depth, cap, [sub])
             prod = Prod([part])
@@ -735,14 +763,7 @@ def gen_grid(ck, rng):
         sub = pick(rng, ["grid", "grid", "healpix", "mgrid"])
         cap2 = min(cap, 3000)
         if sub == "mgrid":
-            depth = min(depth, 2)
-            while True:
-                g1, p1, d1 = gen_base(ck, rng, depth, int(cap2 ** 0.5), ["grid", "grid", "healpix"])
-                g2, p2, d2 = gen_base(ck, rng, depth, int(cap2 ** 0.5), ["grid", "grid", "healpix"])
-                if p1.depth == p2.depth == depth:
-                    break
-                depth = min(p1.depth, p2.depth)
-            base, prod, bd = G.MGrid(g1, g2), Prod([p1, p2]), dict(t="MGrid", grids=[d1, d2])
+            base, prod, bd = gen_product(ck, rng, depth, cap2, ["grid", "grid", "healpix"])
         else:
             base, part, bd = gen_base(ck, rng, depth, cap2, [sub])
             prod = Prod([part])
@@ -778,22 +799,29 @@ def A(x):
     return np.asarray(x)
 
 
-_SIZES = [32, 128, 512, 2048, 8192, 32768, 131072, 524288]
+CHUNK = 512
 
 
 def P(fn, arr, *a, axis=1, **kw):
-    """call ``fn`` on the whole-level batch ``arr`` (k, n), padded along the batch axis to a
-    canonical length by repeating the first column (the padded part of the result is cut off).
-    Purpose: JAX compiles every eager operation once per array shape — canonical batch lengths
-    let the compiled kernels be reused across levels and cases."""
+    """call ``fn`` on the whole-level batch ``arr`` (k, n) in chunks of exactly CHUNK columns
+    (the last chunk is padded by repeating its first column; the padding is cut off again).
+    Purpose: JAX compiles every eager operation once per array shape — a single batch length
+    lets the compiled kernels be reused across levels and cases.  Results without a batch axis
+    (e.g. a constant volume of shape (1, 1)) are returned as they are."""
     n = arr.shape[1]
-    m = next((x for x in _SIZES if x >= n), n)
-    if m != n and n > 0:
-        arr = np.concatenate([arr, np.repeat(arr[:, :1], m - n, axis=1)], axis=1)
-    out = A(fn(arr, *a, **kw))
-    if m != n and n > 0 and out.ndim > axis and out.shape[axis] == m:
-        out = out[(slice(None),) * axis + (slice(0, n),)]
-    return out
+    outs = []
+    for lo in range(0, max(n, 1), CHUNK):
+        part = arr[:, lo:lo + CHUNK]
+        m = part.shape[1]
+        if m < CHUNK and m > 0:
+            part = np.concatenate([part, np.repeat(part[:, :1], CHUNK - m, axis=1)], axis=1)
+        out = A(fn(part, *a, **kw))
+        if out.ndim > axis and out.shape[axis] == CHUNK:
+            out = out[(slice(None),) * axis + (slice(0, m),)]
+        else:
+            return out
+        outs.append(out)
+    return outs[0] if len(outs) == 1 else np.concatenate(outs, axis=axis)
 
 
 def case(ck, i):
@@ -806,6 +834,8 @@ def case(ck, i):
     composite = fam in ("mgrid", "hplogr", "hpbrokenlogr", "flat", "sparse")
     ck.note(desc, nontrivial=(depth >= 2 and (aniso or padded or composite)), klass=fam)
 
+    slow = any(isinstance(p, HP) or getattr(p, "brokenlog", False) for p in prod.parts)
+    unb_level = int(rng.integers(0, depth + 1))
     seen = set()
 
     def bad(key, what, **w):
@@ -1005,7 +1035,7 @@ def case(ck, i):
                             children=float(cv[0]), parent=float(pv[0]))
 
         # ---- neighbourhoods ------------------------------------------------------------------------
-        for _w in range(2):
+        for _w in range(1 if slow else 2):
             w = ref.gen_window(rng, l)
             nb = P(ga.neighborhood, idx, w)
             exp_nb, must, soft, inr = ref.nbh(l, idx, w)
@@ -1075,6 +1105,8 @@ def case(ck, i):
         # ---- unbatched calls agree with the batched sweep --------------------------------------------------
         for j in rng.integers(0, n, 2):
             j = int(j)
+            if slow and (l != unb_level or ck._hits.get("unbatched_calls", 0) > 0):
+                continue
             one = idx[:, j]
             ck.hit("unbatched_calls")
             c1 = A(ga.index2coord(one))
